@@ -2,13 +2,14 @@
 \* History part of C13: "answers depend only on the current parameter values,
 \* never on the order of earlier queries or updates".
 \*
-\* One instance of an HMM likelihood class (RescaledHmmLikelihood,
+\* Objects are instances of an HMM likelihood class (RescaledHmmLikelihood,
 \* LogsumHmmLikelihood, LowMemoryRescaledHmmLikelihood) or of a built-in
-\* transition model (FullHmmTransitionMatrix, AutoCorrelationTransitionMatrix)
-\* together with everything the class memoises, as version tags:
+\* transition model (FullHmmTransitionMatrix, AutoCorrelationTransitionMatrix).
+\* obj[o] is a record with everything the object memoises, as version stamps:
 \*
-\*   ver    number of configuration changes so far (parameter update or new
-\*          break points) = the version every answer must come from
+\*   ver    number of configuration changes in the object's history (parameter
+\*          update or new break points; a copy inherits the history of its
+\*          source) = the version every answer must come from
 \*   fwd    version of the forward arrays / log-likelihood (recomputed eagerly)
 \*   back   backward arrays: [ok |-> flag "up to date", st |-> version computed at]
 \*   d1     first-derivative cache: None or [var |-> name, st |-> stamp]
@@ -16,168 +17,182 @@
 \*   d2     second-derivative cache, same shape (d2Variable_, d2LogLik_)
 \*   em1/em2  derivative tables kept by the emission object (variable, stamp)
 \*   flag, pij, eq   lazy matrix / stationary vector of a transition model
+\*   tm     identity of the transition-model component the object computes with
+\*   foreign  that component currently holds the parameter values of ANOTHER object
+\*   ans    what the last query on this object answered from
 \*
 \* A stamp is the version the cell was computed at, or Garbage when it was
 \* computed from ingredients that do not belong together (other variable,
-\* other version, never computed).  Every query returns in `ans` the stamp of
-\* what it answered from; Fresh says that stamp is the current version.
+\* other version, other object, never computed).  Every query stores in `ans`
+\* the stamp of what it answered from; Fresh says that stamp is the object's
+\* current version.  Copy (copy constructor / clone() / operator=) duplicates
+\* the record - caches included - and must give the copy components of its own:
+\* from then on the two histories are independent (CopyIndependent is Fresh on
+\* both objects under every interleaving of calls on either).
 \*
 \* Variant = "ok" is the design (what the classes must do); the other values
-\* re-introduce one memoisation defect each - TLC must reject every one of
-\* them (checks/c13.py runs them as negative controls).
+\* re-introduce one defect each - TLC must reject every one of them
+\* (checks/c13.py runs them as negative controls).
 EXTENDS Naturals, FiniteSets, TLC
 
 CONSTANTS Vars,      \* derivative variables (parameters of the emissions)
           BadVars,   \* names that are no parameter: the emission object raises
           MaxVer,    \* bound on the number of configuration changes explored
           Kinds,     \* instance kinds explored by the design model
-          Variant    \* "ok" | "KeepD1" | "KeepD2" | "KeepBack" | "BpsKeepD" | "D2NoD1" | "RaiseKeepsName" | "SharedFlag"
+          Objs,      \* object identifiers of the design model
+          Variant    \* "ok" | "KeepD1" | "KeepD2" | "KeepBack" | "BpsKeepD" | "D2NoD1" | "RaiseKeepsName"
+                     \*      | "SharedFlag" | "ShareTm"
 
-VARIABLES kind, ver, fwd, back, d1, d2, em1, em2, flag, pij, eq, ans
+VARIABLE obj
+vars == <<obj>>
 
-vars == <<kind, ver, fwd, back, d1, d2, em1, em2, flag, pij, eq, ans>>
+Live == DOMAIN obj
 
 None    == [none |-> TRUE]
 Garbage == 1000000                \* never a version
 LikKinds == {"rescaled", "logsum", "lowmem"}
 TmKinds  == {"full", "auto"}
 
-\* what a result computed from ingredients with stamps S (and at version v) is worth
+\* what a result computed now by r from ingredients with stamps S is worth
 Combine(S, v) == IF S = {v} THEN v ELSE Garbage
+Now(r, S) == IF r.foreign THEN Garbage ELSE Combine(S, r.ver)
 
-InitFor(k) ==
-  /\ kind = k /\ ver = 0 /\ fwd = 0
-  /\ back = [ok |-> FALSE, st |-> Garbage]
-  /\ d1 = None /\ d2 = None /\ em1 = None /\ em2 = None
-  /\ flag = FALSE /\ pij = Garbage /\ eq = Garbage
-  /\ ans = None
+InitRec(k, id) ==
+  [kind |-> k, ver |-> 0, fwd |-> 0,
+   back |-> [ok |-> FALSE, st |-> Garbage],
+   d1 |-> None, d2 |-> None, em1 |-> None, em2 |-> None,
+   flag |-> FALSE, pij |-> Garbage, eq |-> Garbage,
+   tm |-> id, foreign |-> FALSE, ans |-> None]
 
-Init == \E k \in Kinds : InitFor(k)
+Init == \E k \in Kinds : obj = [o \in {1} |-> InitRec(k, 1)]
 
-Answer(q, v, r, st) == ans' = [q |-> q, var |-> v, r |-> r, st |-> st]
+Put(f, o, v) == [x \in DOMAIN f \cup {o} |-> IF x = o THEN v ELSE f[x]]
+Ans(q, v, out, st) == [q |-> q, var |-> v, r |-> out, st |-> st]
 
 \* ---------------------------------------------------------------- configuration changes
-\* setParametersValues & co. -> fireParameterChanged: the forward pass is redone
-\* at once, everything derived from it is void.
-Update ==
-  /\ ver < MaxVer
-  /\ ver' = ver + 1
-  /\ IF kind \in LikKinds
-     THEN /\ fwd' = ver + 1
-          /\ back' = IF Variant = "KeepBack" THEN back ELSE [back EXCEPT !.ok = FALSE]
-          /\ d1' = IF Variant = "KeepD1" THEN d1 ELSE None
-          /\ d2' = IF Variant = "KeepD2" THEN d2 ELSE None
-          /\ UNCHANGED <<flag, pij, eq>>
-     ELSE /\ flag' = FALSE
-          /\ UNCHANGED <<fwd, back, d1, d2, pij, eq>>
-  /\ ans' = None
-  /\ UNCHANGED <<kind, em1, em2>>
+\* setParametersValues & co. -> fireParameterChanged: the components take the object's
+\* parameter values, the forward pass is redone at once, everything derived from it is void.
+UpdateR(r) ==
+  LET r0 == [r EXCEPT !.ver = r.ver + 1, !.foreign = FALSE, !.ans = None] IN
+  IF r.kind \in LikKinds
+  THEN [r0 EXCEPT !.fwd = r.ver + 1,
+                  !.back = IF Variant = "KeepBack" THEN r.back ELSE [r.back EXCEPT !.ok = FALSE],
+                  !.d1 = IF Variant = "KeepD1" THEN r.d1 ELSE None,
+                  !.d2 = IF Variant = "KeepD2" THEN r.d2 ELSE None]
+  ELSE [r0 EXCEPT !.flag = FALSE]
 
-\* setBreakPoints: a configuration change as well
-SetBps ==
-  /\ kind \in LikKinds
-  /\ ver < MaxVer
-  /\ ver' = ver + 1 /\ fwd' = ver + 1
-  /\ back' = [back EXCEPT !.ok = FALSE]
-  /\ d1' = IF Variant = "BpsKeepD" THEN d1 ELSE None
-  /\ d2' = IF Variant = "BpsKeepD" THEN d2 ELSE None
-  /\ ans' = None
-  /\ UNCHANGED <<kind, em1, em2, flag, pij, eq>>
+\* setBreakPoints: a configuration change as well; the forward pass reads the transition component
+SetBpsR(r) ==
+  [r EXCEPT !.ver = r.ver + 1, !.ans = None,
+            !.fwd = IF r.foreign THEN Garbage ELSE r.ver + 1,
+            !.back = [r.back EXCEPT !.ok = FALSE],
+            !.d1 = IF Variant = "BpsKeepD" THEN r.d1 ELSE None,
+            !.d2 = IF Variant = "BpsKeepD" THEN r.d2 ELSE None]
+
+\* an update of o writes o's values into o's transition component - whoever else computes
+\* with that very component now computes with foreign values
+Update(o) ==
+  /\ o \in Live /\ obj[o].ver < MaxVer
+  /\ obj' = [p \in Live |-> IF p = o THEN UpdateR(obj[o])
+                           ELSE IF obj[p].tm = obj[o].tm THEN [obj[p] EXCEPT !.foreign = TRUE]
+                           ELSE obj[p]]
+
+SetBps(o) ==
+  /\ o \in Live /\ obj[o].kind \in LikKinds /\ obj[o].ver < MaxVer
+  /\ obj' = [obj EXCEPT ![o] = SetBpsR(obj[o])]
+
+\* ---------------------------------------------------------------- copies
+\* copy construction / clone() (o2 fresh) or assignment (o2 live, same kind): caches are copied
+\* as they are, the components are cloned
+Copy(o, o2) ==
+  /\ o \in Live /\ o2 # o
+  /\ o2 \in Live => obj[o2].kind = obj[o].kind
+  /\ obj' = Put(obj, o2, [obj[o] EXCEPT !.ans = None,
+                                        !.tm = IF Variant = "ShareTm" /\ obj[o].kind \in LikKinds THEN obj[o].tm ELSE o2])
+
+Drop(o) == /\ o \in Live /\ Cardinality(Live) > 1
+           /\ obj' = [p \in Live \ {o} |-> obj[p]]
 
 \* ---------------------------------------------------------------- queries on a likelihood object
-Supports(q) == kind # "lowmem" \/ q = "LogLik"      \* the low-memory class keeps no arrays
+Supports(r, q) == r.kind # "lowmem" \/ q = "LogLik"      \* the low-memory class keeps no arrays
 
-Raise(q, v) == Answer(q, v, "raise", ver)            \* a refusal carries no stale data
+RaiseR(r, q, v) == [r EXCEPT !.ans = Ans(q, v, "raise", r.ver)]     \* a refusal carries no stale data
 
-QLogLik ==
-  /\ kind \in LikKinds
-  /\ Answer("LogLik", "", "ok", fwd)
-  /\ UNCHANGED <<kind, ver, fwd, back, d1, d2, em1, em2, flag, pij, eq>>
+QLogLikR(r) == [r EXCEPT !.ans = Ans("LogLik", "", "ok", r.fwd)]
 
 \* posterior = forward x backward (and, for the per-site likelihood, the current emissions)
-QPosterior(q) ==
-  /\ kind \in LikKinds
-  /\ IF ~Supports(q)
-     THEN Raise(q, "") /\ UNCHANGED back
-     ELSE /\ back' = IF back.ok THEN back ELSE [ok |-> TRUE, st |-> Combine({fwd}, ver)]
-          /\ Answer(q, "", "ok", Combine({fwd, back'.st}, ver))
-  /\ UNCHANGED <<kind, ver, fwd, d1, d2, em1, em2, flag, pij, eq>>
+QPosteriorR(r, q) ==
+  IF ~Supports(r, q) THEN RaiseR(r, q, "")
+  ELSE LET nb == IF r.back.ok THEN r.back ELSE [ok |-> TRUE, st |-> Now(r, {r.fwd})] IN
+       [r EXCEPT !.back = nb, !.ans = Ans(q, "", "ok", Combine({r.fwd, nb.st}, r.ver))]
 
 \* the first-derivative recursion for variable v: emission derivatives are recomputed
-\* for v, then the arrays are filled from the forward arrays
-D1Compute(v) == [e |-> [var |-> v, st |-> ver],
-                 d |-> [var |-> v, st |-> Combine({fwd}, ver)]]
+\* for v, then the arrays are filled from the forward arrays and the transition matrix
+D1Compute(r, v) == [e |-> [var |-> v, st |-> r.ver],
+                    d |-> [var |-> v, st |-> Now(r, {r.fwd})]]
 
-D1Cached(v) == d1 # None /\ d1.var = v
+D1Cached(r, v) == r.d1 # None /\ r.d1.var = v
 
-QD1(v) ==
-  /\ kind \in LikKinds
-  /\ IF D1Cached(v)
-     THEN Answer("D1", v, "ok", d1.st) /\ UNCHANGED <<d1, em1>>
-     ELSE IF ~Supports("D1") \/ v \in BadVars
-          THEN \* the computation raises: nothing may be left behind under the name v
-               /\ Raise("D1", v)
-               /\ d1' = IF Variant = "RaiseKeepsName" THEN [var |-> v, st |-> Garbage] ELSE None
-               /\ em1' = IF v \in Vars THEN D1Compute(v).e ELSE em1
-          ELSE /\ d1' = D1Compute(v).d /\ em1' = D1Compute(v).e
-               /\ Answer("D1", v, "ok", d1'.st)
-  /\ UNCHANGED <<kind, ver, fwd, back, d2, em2, flag, pij, eq>>
+QD1R(r, v) ==
+  IF D1Cached(r, v) THEN [r EXCEPT !.ans = Ans("D1", v, "ok", r.d1.st)]
+  ELSE IF ~Supports(r, "D1") \/ v \in BadVars
+       THEN \* the computation raises: nothing may be left behind under the name v
+            [RaiseR(r, "D1", v) EXCEPT !.d1 = IF Variant = "RaiseKeepsName" THEN [var |-> v, st |-> Garbage] ELSE None,
+                                       !.em1 = IF v \in Vars THEN D1Compute(r, v).e ELSE r.em1]
+       ELSE [r EXCEPT !.d1 = D1Compute(r, v).d, !.em1 = D1Compute(r, v).e,
+                      !.ans = Ans("D1", v, "ok", D1Compute(r, v).d.st)]
 
-D2Cached(v) == d2 # None /\ d2.var = v
+D2Cached(r, v) == r.d2 # None /\ r.d2.var = v
 
 \* the second-derivative recursion reads the first-derivative arrays and the
 \* emission object's first and second derivative tables: all must be those of v, now
-QD2(v) ==
-  /\ kind \in LikKinds
-  /\ IF D2Cached(v)
-     THEN Answer("D2", v, "ok", d2.st) /\ UNCHANGED <<d1, d2, em1, em2>>
-     ELSE IF ~Supports("D2") \/ v \in BadVars
-          THEN /\ Raise("D2", v)
-               /\ d2' = IF Variant = "RaiseKeepsName" THEN [var |-> v, st |-> Garbage] ELSE None
-               /\ UNCHANGED <<d1, em1, em2>>
-          ELSE LET need == ~D1Cached(v) /\ Variant # "D2NoD1"
-                   nd1  == IF need THEN D1Compute(v).d ELSE d1
-                   ne1  == IF need THEN D1Compute(v).e ELSE em1
-                   ing  == {fwd, ver,
-                            IF nd1 # None /\ nd1.var = v THEN nd1.st ELSE Garbage,
-                            IF ne1 # None /\ ne1.var = v THEN ne1.st ELSE Garbage}
-               IN /\ d1' = nd1 /\ em1' = ne1
-                  /\ em2' = [var |-> v, st |-> ver]
-                  /\ d2' = [var |-> v, st |-> Combine(ing, ver)]
-                  /\ Answer("D2", v, "ok", d2'.st)
-  /\ UNCHANGED <<kind, ver, fwd, back, flag, pij, eq>>
+QD2R(r, v) ==
+  IF D2Cached(r, v) THEN [r EXCEPT !.ans = Ans("D2", v, "ok", r.d2.st)]
+  ELSE IF ~Supports(r, "D2") \/ v \in BadVars
+       THEN [RaiseR(r, "D2", v) EXCEPT !.d2 = IF Variant = "RaiseKeepsName" THEN [var |-> v, st |-> Garbage] ELSE None]
+       ELSE LET need == ~D1Cached(r, v) /\ Variant # "D2NoD1"
+                nd1  == IF need THEN D1Compute(r, v).d ELSE r.d1
+                ne1  == IF need THEN D1Compute(r, v).e ELSE r.em1
+                ing  == {r.fwd, r.ver,
+                         IF nd1 # None /\ nd1.var = v THEN nd1.st ELSE Garbage,
+                         IF ne1 # None /\ ne1.var = v THEN ne1.st ELSE Garbage}
+                nd2  == [var |-> v, st |-> Now(r, ing)]
+            IN [r EXCEPT !.d1 = nd1, !.em1 = ne1, !.em2 = [var |-> v, st |-> r.ver], !.d2 = nd2,
+                         !.ans = Ans("D2", v, "ok", nd2.st)]
 
 \* ---------------------------------------------------------------- queries on a transition model
 \* Pij(i,j) is computed from the parameters directly
-TQPij ==
-  /\ kind \in TmKinds
-  /\ Answer("TPij", "", "ok", ver)
-  /\ UNCHANGED <<kind, ver, fwd, back, d1, d2, em1, em2, flag, pij, eq>>
+TQPijR(r) == [r EXCEPT !.ans = Ans("TPij", "", "ok", r.ver)]
 
 \* getPij() / getEquilibriumFrequencies(): lazily refreshed; one "up to date" flag
 \* guards both, so both must be refreshed together
-Refresh(which) ==
-  IF flag THEN UNCHANGED <<flag, pij, eq>>
-  ELSE /\ flag' = TRUE
-       /\ pij' = IF Variant = "SharedFlag" /\ which = "eq" THEN pij ELSE ver
-       /\ eq'  = IF Variant = "SharedFlag" /\ which = "pij" THEN eq ELSE ver
+RefreshR(r, which) ==
+  IF r.flag THEN r
+  ELSE [r EXCEPT !.flag = TRUE,
+                 !.pij = IF Variant = "SharedFlag" /\ which = "eq" THEN r.pij ELSE r.ver,
+                 !.eq  = IF Variant = "SharedFlag" /\ which = "pij" THEN r.eq ELSE r.ver]
 
-TQMat ==
-  /\ kind \in TmKinds
-  /\ Refresh("pij")
-  /\ Answer("TMat", "", "ok", pij')
-  /\ UNCHANGED <<kind, ver, fwd, back, d1, d2, em1, em2>>
+TQMatR(r) == LET n == RefreshR(r, "pij") IN [n EXCEPT !.ans = Ans("TMat", "", "ok", n.pij)]
+TQEqR(r)  == LET n == RefreshR(r, "eq")  IN [n EXCEPT !.ans = Ans("TEq", "", "ok", n.eq)]
 
-TQEq ==
-  /\ kind \in TmKinds
-  /\ Refresh("eq")
-  /\ Answer("TEq", "", "ok", eq')
-  /\ UNCHANGED <<kind, ver, fwd, back, d1, d2, em1, em2>>
+\* ---------------------------------------------------------------- actions
+OnLik(o, new) == o \in Live /\ obj[o].kind \in LikKinds /\ obj' = [obj EXCEPT ![o] = new]
+OnTm(o, new)  == o \in Live /\ obj[o].kind \in TmKinds /\ obj' = [obj EXCEPT ![o] = new]
 
-Next == \/ Update \/ SetBps \/ QLogLik
-        \/ QPosterior("Post") \/ QPosterior("Site")
-        \/ \E v \in Vars \cup BadVars : QD1(v) \/ QD2(v)
-        \/ TQPij \/ TQMat \/ TQEq
+QLogLik(o)       == o \in Live /\ OnLik(o, QLogLikR(obj[o]))
+QPosterior(o, q) == o \in Live /\ OnLik(o, QPosteriorR(obj[o], q))
+QD1(o, v)        == o \in Live /\ OnLik(o, QD1R(obj[o], v))
+QD2(o, v)        == o \in Live /\ OnLik(o, QD2R(obj[o], v))
+TQPij(o)         == o \in Live /\ OnTm(o, TQPijR(obj[o]))
+TQMat(o)         == o \in Live /\ OnTm(o, TQMatR(obj[o]))
+TQEq(o)          == o \in Live /\ OnTm(o, TQEqR(obj[o]))
+
+Next == \E o \in Objs :
+           \/ Update(o) \/ SetBps(o) \/ QLogLik(o) \/ Drop(o)
+           \/ QPosterior(o, "Post") \/ QPosterior(o, "Site")
+           \/ \E v \in Vars \cup BadVars : QD1(o, v) \/ QD2(o, v)
+           \/ TQPij(o) \/ TQMat(o) \/ TQEq(o)
+           \/ \E o2 \in Objs : Copy(o, o2)
 
 Spec == Init /\ [][Next]_vars
 
@@ -185,20 +200,28 @@ Spec == Init /\ [][Next]_vars
 Stamp == 0..MaxVer \cup {Garbage}
 Cell  == {None} \cup [var : Vars \cup BadVars, st : Stamp]
 
-TypeOK == /\ kind \in LikKinds \cup TmKinds
-          /\ ver \in 0..MaxVer /\ fwd \in Stamp
-          /\ back \in [ok : BOOLEAN, st : Stamp]
-          /\ d1 \in Cell /\ d2 \in Cell /\ em1 \in Cell /\ em2 \in Cell
-          /\ flag \in BOOLEAN /\ pij \in Stamp /\ eq \in Stamp
+TypeOK == \A o \in Live :
+            LET r == obj[o] IN
+            /\ r.kind \in LikKinds \cup TmKinds
+            /\ r.ver \in 0..MaxVer /\ r.fwd \in Stamp
+            /\ r.back \in [ok : BOOLEAN, st : Stamp]
+            /\ r.d1 \in Cell /\ r.d2 \in Cell /\ r.em1 \in Cell /\ r.em2 \in Cell
+            /\ r.flag \in BOOLEAN /\ r.pij \in Stamp /\ r.eq \in Stamp /\ r.foreign \in BOOLEAN
 
-\* every answer was computed from the current version (a refusal is an answer too)
-Fresh == ans # None => ans.st = ver
+\* every answer was computed from the object's current version (a refusal is an answer too) -
+\* whatever was done to any other object in between
+Fresh == \A o \in Live : obj[o].ans # None => obj[o].ans.st = obj[o].ver
 
-\* the reason why: whatever is marked valid is current
+\* the reason why: whatever is marked valid is current, and nobody computes with foreign components
 CachesCurrent ==
-  /\ kind \in LikKinds => fwd = ver
-  /\ back.ok => back.st = ver
-  /\ d1 # None => d1.st = ver /\ d1.var \in Vars /\ em1 = d1
-  /\ d2 # None => d2.st = ver /\ d2.var \in Vars
-  /\ flag => pij = ver /\ eq = ver
+  \A o \in Live :
+    LET r == obj[o] IN
+    /\ ~r.foreign
+    /\ r.kind \in LikKinds => r.fwd = r.ver
+    /\ r.back.ok => r.back.st = r.ver
+    /\ r.d1 # None => r.d1.st = r.ver /\ r.d1.var \in Vars /\ r.em1 = r.d1
+    /\ r.d2 # None => r.d2.st = r.ver /\ r.d2.var \in Vars
+    /\ r.flag => r.pij = r.ver /\ r.eq = r.ver
+
+CopyIndependent == \A o, p \in Live : o # p => obj[o].tm # obj[p].tm
 =============================================================================
